@@ -6,6 +6,16 @@ ROOT = os.path.dirname(os.path.dirname(os.path.abspath(__file__)))
 
 # id -> (category, technique, level text, level note, design ref)
 CLAIMED = {
+    "C01": ("exploration",
+            "PBT / fuzzing over (bytes, chunking, call program): random strings, the repository's fuzz_findings files, and mutated valid streams from the jxlref generators (Modular, multi-frame, VarDCT, JPEG transcodes) driven through a generated program over the whole public decoding API; worker-process isolation with deadlines; checked build (overflow checks + debug assertions)",
+            "Generated-input search over hostile inputs and call orders. Every public call must return Ok/Err/a value: a panic (including overflow and debug-assertion panics), an abnormal worker exit or a confirmed deadline overrun (20 s, 200 s alone) is a violation. Known panic signatures (known_findings.json) are tolerated in generated cases so that the search continues behind them.",
+            "Trusted: worker isolation and deadline handling of the engine. set_image_region is exercised only with rectangles inside the image (regions outside the image are outside every listed property; they are known to panic in blend). No expectation on Ok vs Err.",
+            "DESIGN.md §4 C01"),
+    "C02": ("exploration",
+            "coverage-guided fuzzing (cargo-fuzz / libFuzzer) under AddressSanitizer: target decode_render (arbitrary bytes + config bytes: buffer width, pool, crop) and target valid_shapes (choice sequences -> valid streams with boundary-class dimensions via the jxlref generators, both buffer widths); fixed -runs per process, 16 processes, seeds from VERIF_SEED",
+            "Coverage-guided search for memory-unsafe accesses: any sanitizer report, SIGSEGV or abort is a violation; the crashing input is saved as the replay file. Panics are caught in-target (C01 decides them). libFuzzer timeouts / OOM artefacts are inconclusive (exit 2).",
+            "Trusted: libFuzzer + AddressSanitizer runtime of the installed nightly toolchain. Reads of uninitialised memory are not detected (no MemorySanitizer build); only the SIMD paths this CPU selects run. Campaigns are pinned only approximately by -seed/-runs; the saved artefact is the reproducible unit.",
+            "DESIGN.md §4 C02"),
     "C03": ("exploration",
             "round-trip PBT: independent lossless Modular *encoder* (all predictors incl. weighted, MA trees, RCT/palette/squeeze, groups/passes, every entropy form) -> jxl-oxide decode; exact integer sample equality",
             "Generated-input search over images and over every encoder choice the Modular format allows; the reference encoder derives residuals by running the specified prediction and context modelling on the true image, so any tree/predictor/transform combination is valid by construction and the decoder must reproduce every sample exactly (default and forced-wide buffers).",
